@@ -327,6 +327,17 @@ def rstep (q : Quirks) (cfgs : Nat → Cfg) (w : RWorld) (c : Nat) (op : Op) : R
 /-- the mapping a store with namespace `p` presents -/
 def rabs (w : RWorld) (p : Str) : Spec := fun k => aGet w.srv (pk p k)
 
+/-- the operations through which the engine grows and reads what it has stored once a record exists: member
+updates of the record (`status`, `output`, `stopDate`, …), appends to the history, plain and cached reads,
+membership tests — everything but replacing or deleting a whole key and setting a TTL -/
+def isGrow : Op → Bool
+  | .upd _ _ _ => true
+  | .app _ _ => true
+  | .get _ => true
+  | .cget _ => true
+  | .has _ => true
+  | _ => false
+
 def ropen (srv : List (Str × Json)) (ttl : List (Str × Nat)) : RWorld :=
   { srv := srv, ttl := ttl, cl := fun _ => Client.fresh }
 
